@@ -266,6 +266,17 @@ func parseExpr(in []byte) (Q, int, error) {
 		if subQ == nil {
 			return nil, 0, fmt.Errorf("query: '-' operator needs an argument")
 		}
+		// case: and type: are directives for the enclosing expression list, not
+		// expressions. Negating them would leave the internal marker (or a Type
+		// without a child) in the returned query.
+		switch s := subQ.(type) {
+		case *caseQ:
+			return nil, 0, fmt.Errorf("query: '-' cannot be applied to case:")
+		case *Type:
+			if s.Child == nil {
+				return nil, 0, fmt.Errorf("query: '-' cannot be applied to type:")
+			}
+		}
 		b = b[n:]
 		expr = &Not{subQ}
 
